@@ -66,6 +66,9 @@ struct StructurePrinter<'a, 'b, S> {
     num_items: usize,
     first: bool,
     delegated: bool,
+    /// This printer writes the only item of a record that has attributes and whose braces were
+    /// omitted: if the item turns out to be a record itself, it must supply them.
+    wrap: bool,
 }
 
 impl<'a, 'b, S: Debug> Debug for StructurePrinter<'a, 'b, S> {
@@ -90,12 +93,18 @@ impl<'a, 'b, S> StructurePrinter<'a, 'b, S> {
             num_items: 0,
             first: true,
             delegated: false,
+            wrap: false,
             strategy,
         }
     }
 
     fn delegate(mut self) -> Self {
         self.delegated = true;
+        self
+    }
+
+    fn sole_item(mut self, wrap: bool) -> Self {
+        self.wrap = wrap;
         self
     }
 }
@@ -248,7 +257,12 @@ where
     type Header = Self;
     type Body = Self;
 
-    fn record(self, _num_attrs: usize) -> Result<Self::Header, Self::Error> {
+    fn record(mut self, _num_attrs: usize) -> Result<Self::Header, Self::Error> {
+        if self.wrap {
+            let StructurePrinter { fmt, strategy, .. } = &mut self;
+            fmt.write_str("{")?;
+            strategy.start_block(1).fmt(fmt)?;
+        }
         Ok(self)
     }
 }
@@ -347,9 +361,11 @@ where
             strategy,
             ..
         } = &mut self;
+        let mut sole = false;
         if *has_attr && !*brace_written {
             if *num_items == 1 {
                 fmt.write_str(" ")?;
+                sole = true;
             } else {
                 strategy.attr_padding().fmt(fmt)?;
                 fmt.write_str("{")?;
@@ -363,7 +379,7 @@ where
             fmt.write_str(",")?;
             strategy.item_padding(*brace_written).fmt(fmt)?;
         }
-        let printer = StructurePrinter::new(fmt, *strategy);
+        let printer = StructurePrinter::new(fmt, *strategy).sole_item(sole);
         value.write_with(printer)?;
         Ok(self)
     }
@@ -421,6 +437,7 @@ where
             fmt,
             brace_written,
             first,
+            wrap,
             mut strategy,
             ..
         } = self;
@@ -428,6 +445,10 @@ where
             if !first {
                 strategy.end_block().fmt(fmt)?;
             }
+            fmt.write_str("}")?;
+        }
+        if wrap {
+            strategy.end_block().fmt(fmt)?;
             fmt.write_str("}")?;
         }
         Ok(())
@@ -768,7 +789,8 @@ where
             fmt.write_str(",")?;
             strategy.item_padding(*brace_written).fmt(fmt)?;
         }
-        let printer = StructurePrinter::new(fmt, *strategy);
+        let sole = *has_attr && !*brace_written && *single_item;
+        let printer = StructurePrinter::new(fmt, *strategy).sole_item(sole);
         value.write_with(printer)?;
         Ok(self)
     }
